@@ -7,8 +7,10 @@
      Client.hostClient                   -> inside client_do           (maps m / ms keyed by the URI host, Addr = AddMissingPort host isTLS)
      HostClient.Do  (retry loop)         -> hc_attempts
      HostClient.doNonNilReqResp          -> hc_once                    (scheme check c.IsTLS != req.URI().isHTTPS())
-     transport.RoundTrip + AcquireConn + dialHostHard + dialAddr + ReleaseConn/CloseConn -> hc_once
-                                            (pool non-empty: take conns[0] (FIFO, the default); else dial Addr, wrap in tls.Client iff IsTLS)
+     transport.RoundTrip + AcquireConn + dialHostHard + ReleaseConn/CloseConn -> hc_once
+                                            (pool non-empty: take conns[0] (FIFO, the default); else dial Addr through dialAddr)
+     dialAddr / tlsClientHandshake       -> dialAddr / tlsClientHandshake   (isTLS: lazy tls.Client when WriteTimeout == 0, explicit
+                                            handshake helper otherwise; both hand back the TLS wrapper, never the raw connection)
      doRequestFollowRedirects            -> follow                     (re-enters the same doer with the next hop)
      LBClient.DoDeadline                 -> CLB: passes the request to one of its HostClients unchanged
 
@@ -53,15 +55,35 @@ Inductive via := ViaClient | ViaHost | ViaLB.
 
 Record req := { r_id : N; r_scheme : bytes; r_host : bytes; r_via : via }.
 
-Record conn := { c_id : N; c_addr : bytes; c_tls : bool }.
+(* what dialAddr hands back to the HostClient (and what is then pooled and written to) *)
+Inductive connkind :=
+| KRaw              (* the connection returned by the dialer, as it is *)
+| KTLSLazy          (* tls.Client(conn, cfg): handshake at the first write *)
+| KTLSHandshaked.   (* the tls.Conn on which tlsClientHandshake completed the handshake *)
 
-(* HostClient: Addr, IsTLS, idle connections c.conns *)
-Record hostclient := { hc_addr : bytes; hc_tls : bool; hc_pool : list conn }.
+Definition kind_tls (k : connkind) : bool := match k with KRaw => false | _ => true end.
+
+(* client.go tlsClientHandshake: conn := tls.Client(rawConn, tlsConfig); conn.SetDeadline; conn.Handshake(); ...; return conn, nil
+   — the wrapper, not rawConn (handshake errors are dial errors: not modelled) *)
+Definition tlsClientHandshake : connkind := KTLSHandshaked.
+
+(* client.go dialAddr, for a dialer that returns plain connections (isTLSAlready = false):
+     if isTLS && !isTLSAlready { if writeTimeout == 0 { return tls.Client(conn, tlsConfig) }; return tlsClientHandshake(conn, ...) }
+     return conn
+   [wt] = (writeTimeout != 0) *)
+Definition dialAddr (isTLS wt : bool) : connkind :=
+  if isTLS then (if wt then tlsClientHandshake else KTLSLazy) else KRaw.
+
+Record conn := { c_id : N; c_addr : bytes; c_kind : connkind }.
+Definition c_tls (c : conn) : bool := kind_tls (c_kind c).
+
+(* HostClient: Addr, IsTLS, WriteTimeout != 0, idle connections c.conns *)
+Record hostclient := { hc_addr : bytes; hc_tls : bool; hc_wt : bool; hc_pool : list conn }.
 
 Inductive err := EInvalidHost | EUnsupportedScheme | ESchemeMismatch | EConn | ETooManyRedirects | ENoClient | EOutOfFuel.
 
 Inductive event :=
-| EDial (cid : N) (addr : bytes) (tls : bool)   (* dialAddr: conn to addr, wrapped with tls.Client iff tls *)
+| EDial (cid : N) (addr : bytes) (k : connkind)  (* dialAddr: conn to addr, of kind k *)
 | EWrite (cid : N) (r : req)                     (* req.Write + Flush on connection cid *)
 | ERefuse (r : req) (e : err).                   (* request rejected before any connection was chosen *)
 
@@ -85,14 +107,15 @@ Definition hc_once (hc : hostclient) (r : req) (rep : reply) (next : N)
     let '(c, pool1, next1, evd) :=
       match hc_pool hc with
       | c :: rest => (c, rest, next, [])                                 (* FIFO: conns[0] *)
-      | [] => let c := {| c_id := next; c_addr := hc_addr hc; c_tls := hc_tls hc |} in
-              (c, [], next + 1, [EDial next (hc_addr hc) (hc_tls hc)])   (* dialHostHard -> dialAddr(addr, ..., c.IsTLS, ...) *)
+      | [] => let k := dialAddr (hc_tls hc) (hc_wt hc) in               (* dialHostHard -> dialAddr(addr, ..., c.IsTLS, ..., c.WriteTimeout) *)
+              let c := {| c_id := next; c_addr := hc_addr hc; c_kind := k |} in
+              (c, [], next + 1, [EDial next (hc_addr hc) k])
       end in
     let evs := evd ++ [EWrite (c_id c) r] in
     match rep with
-    | RKeep  => ({| hc_addr := hc_addr hc; hc_tls := hc_tls hc; hc_pool := pool1 ++ [c] |}, next1, evs, OOk, false)
-    | RClose => ({| hc_addr := hc_addr hc; hc_tls := hc_tls hc; hc_pool := pool1 |}, next1, evs, OOk, false)
-    | RFail  => ({| hc_addr := hc_addr hc; hc_tls := hc_tls hc; hc_pool := pool1 |}, next1, evs, OErr EConn, true)
+    | RKeep  => ({| hc_addr := hc_addr hc; hc_tls := hc_tls hc; hc_wt := hc_wt hc; hc_pool := pool1 ++ [c] |}, next1, evs, OOk, false)
+    | RClose => ({| hc_addr := hc_addr hc; hc_tls := hc_tls hc; hc_wt := hc_wt hc; hc_pool := pool1 |}, next1, evs, OOk, false)
+    | RFail  => ({| hc_addr := hc_addr hc; hc_tls := hc_tls hc; hc_wt := hc_wt hc; hc_pool := pool1 |}, next1, evs, OErr EConn, true)
     end.
 
 Definition maxAttempts : nat := Z.to_nat DefaultMaxIdemponentCallAttempts.
@@ -135,7 +158,8 @@ Fixpoint upd (k : bytes) (v : hostclient) (m : hmap) : hmap :=
   | (k', v') :: r => if beq k k' then (k', v) :: r else (k', v') :: upd k v r
   end.
 
-Record world := { w_m : hmap; w_ms : hmap; w_hcs : list hostclient; w_next : N }.
+(* w_cwt: Client.WriteTimeout != 0 (copied into every HostClient the Client creates) *)
+Record world := { w_cwt : bool; w_m : hmap; w_ms : hmap; w_hcs : list hostclient; w_next : N }.
 
 Definition contains (b : N) (s : bytes) : bool := existsb (N.eqb b) s.
 
@@ -149,11 +173,11 @@ Definition client_do (w : world) (r : req) (reps : list reply) : world * list ev
       let m := if isTLS then w_ms w else w_m w in
       let hc := match lookup (r_host r) m with
                 | Some hc => hc
-                | None => {| hc_addr := AddMissingPort (r_host r) isTLS; hc_tls := isTLS; hc_pool := [] |}
+                | None => {| hc_addr := AddMissingPort (r_host r) isTLS; hc_tls := isTLS; hc_wt := w_cwt w; hc_pool := [] |}
                 end in
       let '(hc1, next1, evs, out) := hc_do hc r reps (w_next w) in
       let m1 := upd (r_host r) hc1 m in
-      ({| w_m := if isTLS then w_m w else m1; w_ms := if isTLS then m1 else w_ms w;
+      ({| w_cwt := w_cwt w; w_m := if isTLS then w_m w else m1; w_ms := if isTLS then m1 else w_ms w;
           w_hcs := w_hcs w; w_next := next1 |}, evs, out).
 
 (* stand-alone HostClient number i *)
@@ -169,7 +193,7 @@ Definition host_do (i : nat) (w : world) (r : req) (reps : list reply) : world *
   | None => (w, [ERefuse r ENoClient], OErr ENoClient)
   | Some hc =>
       let '(hc1, next1, evs, out) := hc_do hc r reps (w_next w) in
-      ({| w_m := w_m w; w_ms := w_ms w; w_hcs := set_nth i hc1 (w_hcs w); w_next := next1 |}, evs, out)
+      ({| w_cwt := w_cwt w; w_m := w_m w; w_ms := w_ms w; w_hcs := set_nth i hc1 (w_hcs w); w_next := next1 |}, evs, out)
   end.
 
 (* ---- redirects ------------------------------------------------------------------------- *)
@@ -220,12 +244,14 @@ Fixpoint run (w : world) (cs : list call) : world * list event * list outcome :=
       (w2, evs ++ evs2, out :: outs)
   end.
 
-(* fresh world: empty Client, the given stand-alone HostClients (Addr, IsTLS) with empty pools *)
-Definition mk_hc (p : bytes * bool) : hostclient := {| hc_addr := fst p; hc_tls := snd p; hc_pool := [] |}.
-Definition init (hcs : list (bytes * bool)) : world :=
-  {| w_m := []; w_ms := []; w_hcs := map mk_hc hcs; w_next := 0 |}.
+(* fresh world: empty Client with WriteTimeout != 0 iff cwt, the given stand-alone HostClients (Addr, IsTLS, WriteTimeout != 0) *)
+Definition hcfg := (bytes * bool * bool)%type.
+Definition mk_hc (p : hcfg) : hostclient :=
+  {| hc_addr := fst (fst p); hc_tls := snd (fst p); hc_wt := snd p; hc_pool := [] |}.
+Definition init (cwt : bool) (hcs : list hcfg) : world :=
+  {| w_cwt := cwt; w_m := []; w_ms := []; w_hcs := map mk_hc hcs; w_next := 0 |}.
 
-Definition trace (hcs : list (bytes * bool)) (cs : list call) : list event :=
-  snd (fst (run (init hcs) cs)).
-Definition outcomes (hcs : list (bytes * bool)) (cs : list call) : list outcome :=
-  snd (run (init hcs) cs).
+Definition trace (cwt : bool) (hcs : list hcfg) (cs : list call) : list event :=
+  snd (fst (run (init cwt hcs) cs)).
+Definition outcomes (cwt : bool) (hcs : list hcfg) (cs : list call) : list outcome :=
+  snd (run (init cwt hcs) cs).
